@@ -16,6 +16,8 @@
 //	D documented panic class (argument class in argdesc): may panic
 //	K codec round trip of an empty geometry (out1 = decoded)
 //	R WKB / WKT round trip of a geometry with inserted empties (out1 = decoded, out2 = the value)
+//	H TWKB header options (bounding box, size, ID list) on a geometry with inserted empties (out1) and
+//	  on the base (out2), read back with the header-only readers: see twkbhdr.go
 package main
 
 import (
@@ -498,10 +500,11 @@ func main() {
 		plan      *Plan
 		class     string
 		partners  []*lib.Node // extra second operands chosen for this geometry
+		hdrOnly   bool        // only the G line and the TWKB header lines (no reflective enumeration)
 	}
 	var mixes []mixed
 	addMix := func(base *lib.Node, p *Plan, class string, partners ...*lib.Node) {
-		mixes = append(mixes, mixed{base, insertEmpties(base, p), p, class, partners})
+		mixes = append(mixes, mixed{base, insertEmpties(base, p), p, class, partners, false})
 	}
 	// collections whose Dimension() is raised by an inserted empty member, against partners that
 	// overlap / cross / equal the base (the dimension switch of Crosses and Overlaps, the closed form of Relate)
@@ -568,14 +571,25 @@ func main() {
 		base := genBase(r, allCT[r.Intn(4)], k, 3, 0)
 		addMix(base, genPlan(r, base, true), "random-plan")
 	}
+	nReflective := len(mixes)
+	// away from zero: envelopes that exclude 0 in X, Y, Z and M, empties at every position of every
+	// container at every depth (TWKB header lines only)
+	{
+		r := lib.NewRng(a.Seed ^ 0xC20B0B) // a stream of its own: the draws of the other classes stay as they were
+		for _, base := range awayBases(r, thorough) {
+			for _, p := range everyPositionPlansDeep(base) {
+				mixes = append(mixes, mixed{base, insertEmpties(base, p), p, "away-from-zero", nil, true})
+			}
+		}
+	}
 	// both operands empty / one operand empty
 	nonEmpties := []*lib.Node{}
 	for i := 0; i < 6; i++ {
 		r := root.Fork()
 		nonEmpties = append(nonEmpties, genBase(r, geom.DimXY, lib.Kind(i), 2, 0))
 	}
-	for i := 0; i < 6 && i < len(mixes); i++ {
-		nonEmpties = append(nonEmpties, mixes[len(mixes)-1-i].ins)
+	for i := 0; i < 6 && i < nReflective; i++ {
+		nonEmpties = append(nonEmpties, mixes[nReflective-1-i].ins)
 	}
 	prng := root.Fork()
 	for i, na := range pool {
@@ -648,6 +662,10 @@ func main() {
 			fmt.Sprint(gi.IsEmpty()), fmt.Sprint(gi.Dimension()), fmt.Sprint(gb.IsEmpty()), fmt.Sprint(gb.Dimension()),
 			envS, fmt.Sprintf("%g", 2*gi.Area()))
 		di := idump(mx.ins)
+		emitTWKBHeaders(em, mx.base, mx.ins)
+		if mx.hdrOnly {
+			continue
+		}
 		ri, rb := concrete(gi), concrete(gb)
 		for j := range ri {
 			unary("T", ri[j], &rb[j], di)
